@@ -207,6 +207,12 @@ def triage(ctx, A, since, rid, facts, scope_filter=None):
             ctx.sample({"obligation": k, "fn": o["fn"], "line": o["line"], "accepted_by": why})
             continue
         rv = ctx.is_reviewed(rid + "-" + k, "%s|%s" % (o["fn"], o["site"]))
+        if not rv:
+            # the reviewed site may have been moved into a private helper that only the reviewed function calls: the review is
+            # about that function's documented contract, wherever its body is written
+            own = sole_owner(facts, o["fn"])
+            if own is not None:
+                rv = ctx.is_reviewed(rid + "-" + k, "%s|%s" % (own, o["site"]))
         if rv:
             bk["reviewed"] += 1
             ctx.oblig(True)
@@ -217,6 +223,44 @@ def triage(ctx, A, since, rid, facts, scope_filter=None):
                       "%s obligation not discharged in %d of %d contexts: %s" % (k, o["failed"], o["contexts"], o["detail_fail"]),
                       {"site": o["site"], "instances": sorted(o["insts"])[:5]})
     return by_kind
+
+
+_CALLERS = {}
+
+
+def sole_owner(F, d, depth=0):
+    """the single non-private function from which the private function d is (transitively) exclusively called, else None"""
+    key = id(F)
+    if key not in _CALLERS:
+        cs = {}
+        for b in F.bodies.values():
+            for blk in b["blocks"]:
+                t = blk["term"]
+                if t["k"] == "call" and t.get("callee"):
+                    for nm in callee_names(t):
+                        if nm in F.bodies:
+                            cs.setdefault(nm, set()).add(b["def"])
+        _CALLERS[key] = cs
+    b = F.bodies.get(d)
+    if b is None or depth > 4:
+        return None
+    if b.get("kind") == "Closure":
+        parent = b.get("closure_of")
+        return sole_owner(F, parent, depth + 1) or parent
+    if b["vis"] == "pub" or b.get("impl_trait"):
+        return None
+    callers = _CALLERS[key].get(d, set()) - {d}
+    owners = set()
+    for c in callers:
+        cb = F.bodies[c]
+        if cb["vis"] == "pub" or cb.get("impl_trait"):
+            owners.add(c)
+        else:
+            o2 = sole_owner(F, c, depth + 1)
+            if o2 is None:
+                return None
+            owners.add(o2)
+    return owners.pop() if len(owners) == 1 else None
 
 
 def static_reach(F, root_defs, ip=None):
